@@ -460,9 +460,9 @@ def main():
         seen.add(v['key'])
         uniq.append(v)
     C.emit({'evaluations': n, 'distinct_nontrivial': distinct,
-            'rule': 'C04: all sequences of the ten line classes up to length 3 (quick) / 5 (thorough) + sampled longer ones, with and without final newline, '
+            'rule': 'C04: all sequences of the eleven line classes (incl. a twice dash-escaped entry) up to length 3 (quick) / 5 (thorough) + sampled longer ones + every class at every position of a well-formed message, with and without final newline, '
                     'against an independent reference reading; C08: code points (all in thorough) singly and between hex-like neighbours, random hostile entries, '
-                    'all compression formats; C09: one input per rejection rule in four contexts, exhaustive token sequences, byte mutations, escape boundary values',
+                    'all compression formats; C09: one input per rejection rule in four contexts, a size-field alphabet (39 strings on which str.isdigit / int() disagree, signs, separators, > 4300 digits) x 6 tags, exhaustive token sequences, byte mutations, escape boundary values',
             'samples': samples[:3], 'violations': uniq, 'all_violation_count': len(viol), 'wall_s': time.time() - t0})
 
 
